@@ -262,6 +262,7 @@ func runCheck(c *Ctx, spec *Spec) (int, *Evidence) {
 	paths, obligations, trivial, nontrivialJobs := 0, 0, 0, 0
 	funcs := map[string]int{}
 	funcSym := map[string]bool{}
+	funcHarness := map[string]bool{}
 	stubs := map[string]int{}
 	covers := map[string]int{}
 	pathKinds := map[string]int{}
@@ -298,6 +299,11 @@ func runCheck(c *Ctx, spec *Spec) (int, *Evidence) {
 		}
 		for k := range r.FuncSym {
 			funcSym[k] = true
+		}
+		for k, h := range r.FuncHarness {
+			if h {
+				funcHarness[k] = true
+			}
 		}
 		for k, n := range r.Stubs {
 			stubs[k] += n
@@ -473,9 +479,10 @@ func runCheck(c *Ctx, spec *Spec) (int, *Evidence) {
 		fnames = append(fnames, k)
 	}
 	sort.Strings(fnames)
-	var fenc []map[string]interface{}
+	var fenc, henc []map[string]interface{}
 	for _, k := range fnames {
-		if strings.Contains(k, "vU") && false {
+		if funcHarness[k] {
+			henc = append(henc, map[string]interface{}{"name": k, "ssa_instructions_executed": funcs[k]})
 			continue
 		}
 		fenc = append(fenc, map[string]interface{}{"name": k, "ssa_instructions_executed": funcs[k], "branched_on_symbolic": funcSym[k]})
@@ -496,6 +503,7 @@ func runCheck(c *Ctx, spec *Spec) (int, *Evidence) {
 	}
 	ev.Extra["slowest_instances"] = slows
 	ev.Extra["functions_encoded"] = fenc
+	ev.Extra["harness_functions_executed"] = henc
 	ev.Extra["stubs_and_summaries"] = stubs
 	ev.Extra["covers"] = covers
 	ev.Extra["path_outcomes"] = pathKinds
